@@ -72,6 +72,24 @@ def judge(case):
                                       f"{true[c]:.5f} ({hits[c]} hits of {total}; band 30 % + 6.5 sigma)"))
     case["_worst"] = float(np.abs(rel).max())
     case["_mc_points"] = int(total)
+    if N <= 60 and not out:
+        # a second object of the same grid on which the neighbour getters are called first: the volumes are a property of
+        # the grid, not of the order in which it was asked
+        try:
+            g2 = fresh_sphere_grid(alg, N)
+            with quiet():
+                g2.get_center_distances(), g2.get_cell_borders(), g2.get_voronoi_adjacency()
+                v_after = np.asarray(g2.get_spherical_voronoi().get_voronoi_volumes(), dtype=float)
+        except Exception as e:
+            return [(None, f"{alg}_{N}: volumes after the neighbour getters: {type(e).__name__}: {e}")]
+        if v_after.shape != (N,):
+            out.append((None, f"{alg}_{N}: {v_after.shape} volumes after the neighbour getters"))
+        else:
+            r2 = v_after / np.maximum(true, 1e-300) - 1
+            if (v_after <= 0).any() or abs(v_after.sum() / PI2 - 1) > 0.12 or (np.abs(r2) > tol).any():
+                c = int(np.argmax(np.abs(r2)))
+                out.append((None, f"{alg}_{N}: volumes asked after distances / borders / adjacency on the same object sum to "
+                                  f"{v_after.sum() / PI2:.4f} pi^2, cell {c} is {r2[c] * 100:+.1f} % off the Monte-Carlo measure"))
     if case.get("consumer_history") and not out:
         # the same rotation grid inside a full grid, after the full grid's consumers of the volumes ran (total volumes /
         # prefactors, twice), and after a caller scaled a returned volume array in place: what the rotation grid reports
@@ -179,7 +197,7 @@ def run(tier):
     rule = ("enumeration of (algorithm, N): cube4D and randomQ, " + ("every N in 1..40, 4 seeded N in 41..110 and N = 128, 200 each" if tier == "quick"
             else "every N in 1..272") + "; direction grids N=1..3 for the equal-share clause. For N>=4 every cell is compared with a "
             "Monte-Carlo nearest-rotation measure (adaptive number of uniform points so that the smallest cell gets >= 10 000 hits). "
-            "For N<=60 (quick: two thirds of them) the clauses are judged again on the volumes reported after a caller scaled a returned array in place and by the rotation grid inside a FullGrid after get_total_volumes() ran twice. "
+            "For N<=60 the clauses are judged again on a second object asked for distances, borders and adjacency first; for N<=60 (quick: two thirds of them) the clauses are judged again on the volumes reported after a caller scaled a returned array in place and by the rotation grid inside a FullGrid after get_total_volumes() ran twice. "
             "Non-trivial = rotation grid with N>=4; distinct = distinct (algorithm, N).")
     return res, rule, {"exhaustive": tier == "thorough",
                        "assumptions": ["the oracle is statistical: alarm threshold = 30 % + 6.5 sigma of the cell's own sampling error, "
